@@ -213,6 +213,14 @@ mut('C05', 'signal_done_when_only_marked_canceled', S, """		for g.IsRunning() ||
 mut('C05', 'stopping_ignores_unfinished_steps', N, """	return n.data.State.Status == NodeStatusCancel &&
 		n.data.State.FinishedAt.IsZero() && n.cmd != nil""", """	return n.data.State.Status == NodeStatusCancel &&
 		!n.data.State.FinishedAt.IsZero() && n.cmd != nil""")
+mut('C17', 'basic_auth_needs_a_password', 'internal/frontend/frontend.go', """	if cfg.IsBasicAuth {""", """	if cfg.IsBasicAuth && cfg.BasicAuthPassword != "" {""")
+mut('C17', 'server_forgets_the_token_setting', 'internal/frontend/server/server.go', """		authToken: params.AuthToken,
+""", """""")
+mut('C17', 'middleware_not_told_about_basic_auth', 'internal/frontend/server/server.go', """	if svr.basicAuth != nil {
+		middlewareOptions.AuthBasic = &pkgmiddleware.AuthBasic{""", """	if svr.basicAuth != nil && svr.authToken == nil {
+		middlewareOptions.AuthBasic = &pkgmiddleware.AuthBasic{""")
+mut('C17', 'setup_swaps_nothing_in', 'internal/frontend/middleware/global.go', """	authToken = opts.AuthToken
+""", """""")
 # ---- C10
 mut('C10', 'interrupted_steps_not_reset', G, """				dict[u] == NodeStatusCancel || dict[u] == NodeStatusRunning {""", """				dict[u] == NodeStatusCancel {""")
 mut('C10', 'canceled_steps_not_reset', G, """			if retry[u] || dict[u] == NodeStatusError ||
